@@ -58,7 +58,7 @@ func install() {
 
 func NewRun(n int) *Run {
 	install()
-	r := &Run{Timeout: 5 * time.Second, notify: make(chan struct{}, 64)}
+	r := &Run{Timeout: 60 * time.Second, notify: make(chan struct{}, 64)}
 	for i := 0; i < n; i++ {
 		r.procs = append(r.procs, &proc{run: r, idx: i, release: make(chan struct{}, 1)})
 	}
